@@ -250,6 +250,9 @@ def set_item(ex, obj, key, value):
 
 def get_item(ex, base, key):
     L = ex.L
+    if isinstance(base, VDict) and isinstance(key, VNode) and base.val is not None:
+        ex.require(base.dom(key.t), "KeyError", "getitem")
+        return base.val(key.t)
     if isinstance(base, VESeq) and isinstance(key, VInt) and key.const() == 0:
         T = exprs.theory(ex)
         ex.require(L.Not(T.is_nil(base.t)), "IndexError", "getitem")
